@@ -16,6 +16,7 @@ queries:  snap <path> [nuc..]  -> [vol,density,massTotal,nd..,mass..]      nucs 
 edits (answer ok | reject):
   setnd <path> <nuc> <v>   upd <path> [nuc..] [v..]   setnds <path> [nuc..] [v..]   scale <path> <f>
   addmass <path> <nuc> <m>   setmass <path> <nuc> <m>   setmf <path> [nuc..] [f..]
+component density (material fallback on the empty composition):  compdensity <matDensity> <isVoid T|F> [nuc..] [nd..]
 derived shape:  derived <maxArea> <height> [sibVols] [sibAreas] -> [vol,area]|reject   derivedat <maxArea> [sibAreas]
                 hexmaxarea <sqrt3> <pitch>
 stateless conversions:
@@ -166,13 +167,13 @@ def step (s : St) (ws : List String) : St × String :=
   | ["addmass", path, n, m] =>
     match parseNat? n, parseRat? m with
     | some n, some m =>
-      edit path (fun c => guard' (canAddMass (compOps ph) ph c n m) (addMass (compOps ph) ph c n m))
+      edit path (fun c => guard' (c.canAddMass ph n m) (c.addMass ph n m))
         (fun o a => guard' (canAddMass o ph a n m) (addMass o ph a n m))
     | _, _ => (s, "bad-op")
   | ["setmass", path, n, m] =>
     match parseNat? n, parseRat? m with
     | some n, some m =>
-      edit path (fun c => guard' (canSetMass (compOps ph) ph c n m) (setMass (compOps ph) ph c n m))
+      edit path (fun c => guard' (c.canSetMass ph n m) (c.setMass ph n m))
         (fun o a => guard' (canSetMass o ph a n m) (setMass o ph a n m))
     | _, _ => (s, "bad-op")
   | ["setmf", path, ns, fs] =>
@@ -215,6 +216,13 @@ def step (s : St) (ws : List String) : St × String :=
     match parseNat? n, parseRat? v, parseRat? d with
     | some n, some v, some d => (s, showRat (getMassInGrams ph n v d))
     | _, _, _ => (s, "bad-op")
+  | ["compdensity", md, void, ns, vs] =>
+    match parseRat? md, parseBool? void, parseNatList? ns, parseRatList? vs with
+    | some md, some void, some ns, some vs =>
+      match zipND ns vs with
+      | some d => (s, showRat (Comp.density ph md void { vol := 0, psym := 1, nd := d }))
+      | none => (s, "bad-op")
+    | _, _, _, _ => (s, "bad-op")
   | ["derived", a, h, vs, as] =>
     match parseRat? a, parseRat? h, parseRatList? vs, parseRatList? as with
     | some a, some h, some vs, some as =>
